@@ -15,10 +15,14 @@ CHECK = {
               timeout={"quick": 300, "thorough": 1500}),
         # round 8: the buffered alert channel seen by a consumer that does not receive after every check
         suite("chan", "c09", 400, 6000, stdin=True, args=["-suite", "chan"]),
+        # round 8b: the code that builds and publishes a metric (real informers behind a fake IPFSConnector, api.Metric time
+        # functions, the real PublishMetric observed on the monitor's own subscription)
+        suite("glue", "c09", 160, 2500, stdin=True, args=["-suite", "glue"]),
     ],
     "lean_sources": ["ClusterVerif/Gen/C09.lean", "ClusterVerif/Model/C09.lean", "ClusterVerif/Model/C09Source.lean", "ClusterVerif/Spec/C09.lean",
                      "ClusterVerif/Lemmas/C09.lean", "ClusterVerif/Lemmas/C09Time.lean",
-                     "ClusterVerif/Model/C09Chan.lean", "ClusterVerif/Spec/C09Chan.lean", "ClusterVerif/Lemmas/C09Chan.lean"],
+                     "ClusterVerif/Model/C09Chan.lean", "ClusterVerif/Spec/C09Chan.lean", "ClusterVerif/Lemmas/C09Chan.lean",
+                     "ClusterVerif/Model/C09Glue.lean", "ClusterVerif/Spec/C09Glue.lean"],
     "rule": "history cases = (window capacity, accrual oracle forced true/false through the checker threshold or left to the real phi, "
             "initial peerset, 0-320 operations: arrivals with validity/expiry flags, RemovePeer, RemovePeerMetrics, peerset changes "
             "(known/none/failing), LatestMetrics queries, Watch ticks, CheckPeers calls with arbitrary lists) drawn from one splitmix64 "
@@ -29,6 +33,8 @@ CHECK = {
             "chan cases: channel capacity 1-4 (AlertChannelCap is a package variable; two corpus lines use the shipped 256 with 257 and 300 expired peers), "
             "1-6 peers, 4-16 operations: expired/fresh arrivals (< 6 per peer), CheckPeers with arbitrary lists and visiting orders WITHOUT receiving, "
             "a consumer that receives 0-3 alerts at arbitrary points; the case ends with a full drain; "
+            "glue cases: informer kind (disk freespace / reposize, numpin) x RPC outcome (no client, failing IPFSConnector, answer with sizes 0, "
+            "2^63, 2^64-1, equal, size > max) x TTL, or an api.Metric with an expiry 1 ms - 1 h before / after now, SetTTL of a negative duration, Expire 0 / MaxInt64 / MinInt64; "
             "a timed run whose real timestamps do not confirm the nominal order with 5 ms to spare is re-run (3x) and then counted inconclusive",
     "trusted_base": ["harness copies of two dispatches: Watch's tick (CheckPeers(peerset) / CheckAll / nothing) and, in the history suite only, "
                      "LatestMetrics = LatestValid + PeersetFilter (the monitor suite runs the real pubsubmon.Monitor.LatestMetrics)",
@@ -36,6 +42,11 @@ CHECK = {
                      "millisecond schedule of a case is the model's clock, accepted only when the real timestamps confirm every (observation, expiry) order",
                      "the payload classes of the receive path (well-formed / zero value / malformed) are a hand-written classification of 21 concrete "
                      "encodings; the correspondence run sends each through real pubsub into the real msgpack decoder",
+                     "harness/extract_c09 statement translators (round 8b): each body statement of Window.Add / Window.Latest / Monitor.LatestMetrics / "
+                     "Monitor.PublishMetric is printed, white space removed and matched against a fixed list of shapes (locking, tracing, logging skipped); "
+                     "anything else is the token \"?\" which the Lean interpreter refuses; Window.All by its single append shape",
+                     "glue suite: `exp=in` (Expire within [call start + TTL, call end + TTL]) is computed by the harness; delivery of a published metric is "
+                     "decided by a later valid marker message on the same topic plus a 400 ms grace period (pubsub validates messages concurrently, the marker may overtake)",
                      "/repo/monitor/pubsubmon/verif_export_c09.go (build tag verif): VerifStore / VerifChecker accessors",
                      "verif_export.go wrappers (VerifNewCluster, VerifPushInformerMetrics, VerifPushPingMetrics) and common.StoreMonitor as recording monitor"],
     "assumptions": ["history / monitor / timed / watch / recv suites and C09_holds: the consumer of Alerts() receives every alert of a check before the next "
@@ -59,8 +70,13 @@ META = {
             "and with the Lean property checker; time inside a case is tied with millisecond TTLs and real sleeps (timed suite), the real Checker.Watch ticker (watch suite) "
             "and real pubsub messages including malformed ones (recv suite); between two renewals of a (peer, metric) at most one alert, exactly one once a covering check finds it expired; "
             "the buffered alert channel (round 8): model of alert/CheckPeers with channel occupancy, count-before-send order regenerated from the go/ast of Checker.alert; "
-            "theorem: with the count raised only after a successful send no history (any capacity, any consumer) forgets an unreported metric; refutation for the shipped order "
-            "(a full channel drops the alert, keeps the count, the next check forgets the stale metric silently), reproduced on the real Checker (suite chan); "
+            "theorem: with the count raised only after a successful send (today's order since the repair F44, regenerated as alertCountsBeforeSend = false) no history "
+            "(any capacity, any consumer) forgets an unreported metric; refutation for the PRE-FIX order, which is what a revert reintroduces "
+            "(a full channel drops the alert, keeps the count, the next check forgets the stale metric silently; suite chan runs the real Checker with capacities 1-4 and 256); "
+            "round 8b: Window.Add / Latest / All, Monitor.LatestMetrics and Monitor.PublishMetric are translated statement by statement (go/ast) into programs the model INTERPRETS: "
+            "theorems for every ring / state that the interpreted programs are the model's functions (the peerset of LatestMetrics is asked for at the query), refutations for "
+            "store-after-advance, read-at-cursor and a remembered peerset; api.Metric time functions (strict expiry, negative TTL, zero Expire); the informers' metric construction "
+            "(no client / RPC error never valid and never on the wire, answered RPC valid for exactly one TTL, free space never underflows), driven through the real informers and the real PublishMetric (suite glue); "
             "a malformed message changes nothing; a failing peerset function skips the round and keeps the pending alert; cadence measured on the real loops with millisecond TTLs (corpus cases in quick, random cases in thorough).",
     "note": "Trusted: Lean kernel (+propext, Classical.choice, Quot.sound), the hand-written model/spec, the Go harness. The phi float arithmetic is an oracle.",
     "technique": "Lean 4 invariants over histories + differential correspondence with the real monitor code",
